@@ -299,7 +299,25 @@ def specLine (specs : List (List Err)) (sched : List TaskId) : String :=
     if sc.poss == [.rep] then a else
     " || ".intercalate [a, b, c, d, e]
 
+/-- `cell dg <first|-> <transport error>`: the datagram handle of h3-datagram
+    (`DatagramSender::handle_send_datagram_error`).  Model = the code: it stores the transport's error
+    with `set_conn_error_and_wake`, drops what that call returns (the error that IS in the cell) and
+    answers `ConnectionError::Remote(<its own error>)` — not `convert_to_connection_error`: a timeout
+    comes out as `Remote(Timeout)`, and after an earlier error it names the transport's error instead of
+    the connection's (site D-05g).  Spec = the property: every handle reports the connection's single
+    error, the one the driver reports. -/
+def handleDg (first q : String) : String :=
+  match (if first == "-" then some none else (parseErr first).map some), parseErr q with
+  | some f, some (.quic qe) =>
+    let cell := f.getD (.quic qe)
+    let dg := showQ "R" qe
+    let drv := showC (convert cell)
+    let tag := if dg == drv then "" else " #D-05g"
+    s!"cell={showErr cell} dg={dg} drv={drv}{tag} ## cell={showErr cell} dg={drv} drv={drv}"
+  | _, _ => "bad-op"
+
 def handle : List String → String
+  | ["cell", "dg", first, q] => handleDg first q
   | "cell" :: mode :: rest =>
     if mode != "pce" && mode != "acc" && mode != "clo" && mode != "idl" then "bad-op" else
     let client := mode == "clo" || mode == "idl"
